@@ -14,20 +14,21 @@ theorem hasKey_eq_lookup (kvs : List (Key × Val)) (k : Key) : hasKey kvs k = (l
     obtain ⟨k', v⟩ := p
     unfold hasKey at ih ⊢
     simp only [List.any_cons, lookupKey]
-    by_cases h : k' = k
-    · simp [h]
-    · simp [h, ih]
+    cases h : k'.eqv k with
+    | true => simp
+    | false => simp [ih]
 
 theorem lookupKey_mem {kvs : List (Key × Val)} {k : Key} {v : Val} (h : lookupKey k kvs = some v) :
-    (k, v) ∈ kvs := by
+    ∃ p ∈ kvs, p.2 = v := by
   induction kvs with
   | nil => cases h
   | cons p rest ih =>
     obtain ⟨k', v'⟩ := p
     unfold lookupKey at h
     split at h
-    · rename_i hk; injection h with h; subst h; subst hk; exact List.mem_cons_self
-    · exact List.mem_cons_of_mem _ (ih h)
+    · injection h with h; subst h; exact ⟨(k', v'), List.mem_cons_self, rfl⟩
+    · obtain ⟨p, hp, he⟩ := ih h
+      exact ⟨p, List.mem_cons_of_mem _ hp, he⟩
 
 theorem dictErase_nokey {kvs : List (Key × Val)} {k : Key} (h : hasKey kvs k = false) :
     dictErase kvs k = kvs := by
@@ -94,7 +95,9 @@ theorem step_dict (kvs : List (Key × Val)) (st : DStep) (hg : GoodD kvs) (ha : 
       simp [this]
     | some v =>
       have hk : hasKey kvs k = true := by rw [hasKey_eq_lookup, hl]; rfl
-      have hm : v.isMissing = false := (hg _ (lookupKey_mem hl)).1
+      have hm : v.isMissing = false := by
+        obtain ⟨p, hp, he⟩ := lookupKey_mem hl
+        rw [← he]; exact (hg p hp).1
       have hmm : Val.missing.isMissing = true := rfl
       simp [hk, hm, hmm, PgDict.setItemRaw]
   | popitem => rfl
@@ -108,7 +111,9 @@ theorem step_dict (kvs : List (Key × Val)) (st : DStep) (hg : GoodD kvs) (ha : 
       simp [this, Val.isMissing, setItemRaw_eq_assign ha]
     | some v =>
       have hk : hasKey kvs k = true := by rw [hasKey_eq_lookup, hl]; rfl
-      have hm : v.isMissing = false := (hg _ (lookupKey_mem hl)).1
+      have hm : v.isMissing = false := by
+        obtain ⟨p, hp, he⟩ := lookupKey_mem hl
+        rw [← he]; exact (hg p hp).1
       simp [hk, hm]
   | update pairs =>
     simp only [admissibleD, List.all_eq_true] at ha
